@@ -207,6 +207,10 @@ pub fn make_module() -> KMap {
                 }
             }
             (Number(start), [Number(end), Number(step_by)]) => {
+                if !(f64::from(step_by) > 0.0) {
+                    return runtime_error!("number.step_to: the step size must be greater than zero");
+                }
+
                 if start.is_i64() && step_by.is_i64() {
                     KIterator::new(StepToI64Iterator::new(
                         start.into(),
